@@ -594,7 +594,9 @@ def run_prop(prop: str, tier: str, replay=None) -> int:
             layout["hoist_equal_modulo_DUP"] = layout.get("hoist_equal_modulo_DUP", 0) + (wfd and hed)
             ped = fields.get("perm-equal-dup") == "1"
             layout["perm_equal_modulo_DUP"] = layout.get("perm_equal_modulo_DUP", 0) + ped
-            if (wf and he) or (wfd and hed) or ped:     # theorems layout_rel_sound / layout_rel_sound_dup / layout_rel_sound_perm
+            pdd = fields.get("perm-equal-dead") == "1"
+            layout["perm_equal_after_dropping_dead_declarations"] = layout.get("perm_equal_after_dropping_dead_declarations", 0) + pdd
+            if (wf and he) or (wfd and hed) or ped or pdd:     # theorems layout_rel_sound / _dup / _perm / _dead
                 layout["equal_denotation_by_theorem"] += 1
                 dn = {f: r.get("denote") for f, r in reps.items()}
                 if len(set(dn.values())) != 1:
